@@ -23,9 +23,13 @@ type abandon struct {
 	n, k     int    // handler-returns: caller sends n, handler reads k<n then returns; caller-*: handler sends n, caller reads k<=n then cancels/stops
 	herr     bool   // handler returns an error instead of nil
 	rstFails bool   // caller-cancels: the transport write that follows the cancellation (the reset) fails
+	rstSlow  bool   // caller-cancels: the transport takes the reset only once everything else has come to rest
 }
 
 func (a abandon) name() string {
+	if a.rstSlow {
+		return fmt.Sprintf("%s/n=%d/k=%d/reset-write-slow", a.mode, a.n, a.k)
+	}
 	if a.rstFails {
 		return fmt.Sprintf("%s/n=%d/k=%d/reset-write-fails", a.mode, a.n, a.k)
 	}
@@ -46,9 +50,9 @@ func c11(tier string) []*explore.Scenario {
 					if others > 0 || n > 2 {
 						b = bound - 1
 					}
-					out = append(out, c11One(abandon{"handler-returns", n, k, false, false}, cp, others, b))
+					out = append(out, c11One(abandon{"handler-returns", n, k, false, false, false}, cp, others, b))
 					if k == 0 {
-						out = append(out, c11One(abandon{"handler-returns", n, k, true, false}, cp, others, b))
+						out = append(out, c11One(abandon{"handler-returns", n, k, true, false, false}, cp, others, b))
 					}
 				}
 			}
@@ -64,12 +68,12 @@ func c11(tier string) []*explore.Scenario {
 				if n > 2 {
 					b = bound - 1
 				}
-				out = append(out, c11One(abandon{"caller-cancels", n, k, false, false}, cp, 0, b))
+				out = append(out, c11One(abandon{"caller-cancels", n, k, false, false, false}, cp, 0, b))
 				if k == 0 || k == n {
-					out = append(out, c11One(abandon{"caller-cancels", n, k, false, true}, cp, 0, b))
+					out = append(out, c11One(abandon{"caller-cancels", n, k, false, true, false}, cp, 0, b))
 				}
 				if n == 2 {
-					out = append(out, c11One(abandon{"caller-cancels", n, k, false, false}, cp, 1, b-1))
+					out = append(out, c11One(abandon{"caller-cancels", n, k, false, false, false}, cp, 1, b-1))
 				}
 			}
 		}
@@ -82,23 +86,34 @@ func c11(tier string) []*explore.Scenario {
 	}
 	// a caller that simply stops reading (no cancel) with responses queued
 	for _, unread := range []int{1, 2, 3, 4} {
-		out = append(out, c11One(abandon{"caller-stops", unread, 0, false, false}, 64, 0, 0))
+		out = append(out, c11One(abandon{"caller-stops", unread, 0, false, false, false}, 64, 0, 0))
 	}
 	// the statement's full ranges (n<=8 messages, m<=8 unread, 0..4 other RPCs) under the default schedule
 	for _, others := range []int{0, 2, 4} {
 		for _, cp := range []int{0, 64} {
 			for _, k := range []int{0, 4, 7} {
-				out = append(out, c11One(abandon{"handler-returns", 8, k, false, false}, cp, others, 0))
+				out = append(out, c11One(abandon{"handler-returns", 8, k, false, false, false}, cp, others, 0))
 			}
 			for _, k := range []int{0, 3, 8} {
-				out = append(out, c11One(abandon{"caller-cancels", 8, k, false, false}, cp, others, 0))
+				out = append(out, c11One(abandon{"caller-cancels", 8, k, false, false, false}, cp, others, 0))
 			}
+		}
+	}
+	// the reset that follows a cancellation is taken by the transport only after the unread
+	// responses have all arrived
+	for _, nk := range [][2]int{{2, 0}, {3, 1}, {5, 0}, {6, 1}, {8, 0}, {8, 1}, {8, 4}} {
+		for _, cp := range []int{0, 64} {
+			b := 0
+			if nk[0] <= 3 {
+				b = 1
+			}
+			out = append(out, c11One(abandon{"caller-cancels", nk[0], nk[1], false, false, true}, cp, 1, b))
 		}
 	}
 	if tier == "thorough" {
 		for _, n := range []int{6, 8} {
-			out = append(out, c11One(abandon{"handler-returns", n, 1, false, false}, 64, 2, 1))
-			out = append(out, c11One(abandon{"caller-cancels", n, 0, false, false}, 64, 2, 1))
+			out = append(out, c11One(abandon{"handler-returns", n, 1, false, false, false}, 64, 2, 1))
+			out = append(out, c11One(abandon{"caller-cancels", n, 0, false, false, false}, 64, 2, 1))
 		}
 	}
 	return out
@@ -118,6 +133,7 @@ func c11One(a abandon, capn, others, bound int) *explore.Scenario {
 			vsched.Settle()
 			vsched.Explore(true)
 			r := w.Rec("ab", "Bidi")
+			slowGate := make(chan struct{})
 			var herr error
 			if a.herr {
 				herr = status.Error(codes.FailedPrecondition, "handler gave up")
@@ -160,6 +176,13 @@ func c11One(a abandon, capn, others, bound int) *explore.Scenario {
 						if a.rstFails {
 							d.Pipe.A.FailNextWrites = 1
 						}
+						if a.rstSlow {
+							d.Pipe.A.OnWrite = func(k int, rpc *env.Rpc) {
+								if rpc.GetReset_() != nil {
+									<-slowGate
+								}
+							}
+						}
 						cancel()
 					}
 					_ = cancel
@@ -173,6 +196,10 @@ func c11One(a abandon, capn, others, bound int) *explore.Scenario {
 				vsched.GoNamed("other-"+or.Tag, func() { w.CallUnary(d.CC, context.Background(), or, "x") })
 			}
 			vsched.Quiesce()
+			if a.rstSlow {
+				close(slowGate)
+				vsched.Quiesce()
+			}
 			// a probe started afterwards, without a deadline
 			p1 := w.Rec("p1", "Unary")
 			vsched.GoNamed("probe-p1", func() { w.CallUnary(d.CC, context.Background(), p1, "x") })
